@@ -160,7 +160,7 @@ def for_loop_order_insensitive(F, call, deterministic):
                 t = recv_ty.replace("&mut ", "").replace("&", "")
                 if re.match(r"^std::collections::(BTreeMap|BTreeSet|HashMap|HashSet)<", t) or "btree_map::Entry" in t or "hash_map::Entry" in t:
                     continue
-                if t.startswith("std::vec::Vec<") and m == "push":
+                if t.startswith("std::vec::Vec<") and m in ("push", "extend", "append"):      # extend / append: the same accumulation, several elements at once (b105)
                     r0 = n["recv"]
                     while r0["k"] in ("AddrOf", "Unary"):
                         r0 = r0["e"]
@@ -182,6 +182,24 @@ def for_loop_order_insensitive(F, call, deterministic):
                  and [x["name"] for x in hwalk(n["recv"]) if x["k"] == "Path" and x.get("res") == "local"] == [v] and n["line"] > end_line]
         if not sorts:
             return False, "Vec `%s` filled in hash order is not sorted after the loop" % v
+        # between the loop and the sort the Vec is still in hash order: a loop over it there may only regroup it per key
+        # (push into the per-key Vec obtained from entry() of an ordered map, as inside the loop itself: one hash entry
+        # per key, so each group keeps the order of its entry) - b105 groups before it sorts
+        first_sort = min(n["line"] for n in sorts)
+        for lp2 in hwalk(tree["body"]):
+            if lp2["k"] == "Match" and lp2.get("src") == "ForLoopDesugar" and end_line < lp2["line"] < first_sort \
+                    and any(x["k"] == "Path" and x.get("res") == "local" and x.get("name") == v for x in hwalk(lp2["scrut"])):
+                for n in hwalk(lp2["arms"]):
+                    if n["k"] in ("Ret", "Break") and not any("desugar" in m_ for m_ in (n.get("mac") or [])):
+                        return False, "Vec `%s` is walked in hash order before it is sorted, and the walk can leave early" % v
+                    if n["k"] in ("Assign", "AssignOp"):
+                        return False, "Vec `%s` is walked in hash order before it is sorted, and the walk assigns to a variable" % v
+                    if n["k"] == "MethodCall" and n["method"] in ("push", "push_str", "extend", "append", "push_back"):
+                        r0 = n["recv"]
+                        while r0["k"] in ("AddrOf", "Unary"):
+                            r0 = r0["e"]
+                        if not (r0["k"] == "MethodCall" and any(x["k"] == "MethodCall" and x["method"] == "entry" and re.match(r"^(&mut )?std::collections::BTreeMap<", (x.get("recv_ty") or "")) for x in hwalk(r0))):
+                            return False, "Vec `%s` is walked in hash order before it is sorted, and the walk pushes into something that is not a per-key group of an ordered map" % v
     return True, "for-loop without early exit that only accumulates into ordered/hash containers%s" % (" and Vecs sorted after the loop (%s)" % ", ".join(sorted(pushed)) if pushed else "")
 
 
